@@ -20,7 +20,15 @@ pub enum Error {
 
 impl fmt::Display for Error {
     fn fmt(&self, f: &mut fmt::Formatter<'_>) -> fmt::Result {
-        write!(f, "{:?}", self)
+        // NOTE: messages must not be formatted with `{:?}`, errors of nested views are
+        //       wrapped on each level and debug formatting escapes already escaped
+        //       message again, which doubles its size on each level.
+        match self {
+            Error::ParseError(name, message) => write!(f, "ParseError({}, {})", name, message),
+            Error::Other(message) => write!(f, "Other({})", message),
+            Error::Json(error) => write!(f, "Json({})", error),
+            _ => write!(f, "{:?}", self),
+        }
     }
 }
 
